@@ -39,6 +39,13 @@ def families(rng):
                   ("and", ("pred", "before", [("var", "d"), ("var", "r")]), smt("(= lhs rv)", "lhs", "rv"))))))
     out.append(("exists-mexpr-eq", "assgn",
                 ("exists", "<assgn>", "a", "start", mex("<assgn>", ["<var>", " := ", "<rhs>"], {0: "l", 2: "rr"}), smt("(= l rr)", "l", "rr"))))
+    # match expressions that span two nesting levels of a recursive nonterminal
+    two_level = ("<stmt>", (("<assgn>", None), (" ; ", ()), ("<stmt>", (("<assgn>", (("<var>", None), (" := ", ()), ("<rhs>", None))),))))
+    out.append(("forall-mexpr-two-levels", "assgn",
+                ("forall", "<stmt>", "s", "start", ("<assgn> ; {<var> v} := <rhs>", [(two_level, {"v": (2, 0, 0)})]), smt(f'(= v "{r.choice("abc")}")', "v"))))
+    nested_x = ("<x>", (("(", ()), ("<l>", (("<x>", None), ("<l>", None))), (")", ())))
+    out.append(("forall-mexpr-two-levels-nest", "nest",
+                ("forall", "<x>", "p", "start", ("({<x> h}<l>)", [(nested_x, {"h": (1, 0)})]), smt(f'(= h "{r.choice("ab")}")', "h"))))
     c = r.choice("abc")
     out.append(("forall-eq-literal", "assgn", ("forall", "<var>", "v", "start", None, smt(f'(= v "{c}")', "v"))))
     out.append(("exists-eq-literal", "assgn", ("exists", "<digit>", "d", "start", None, smt(f'(= d "{r.choice("0123")}")', "d"))))
